@@ -214,6 +214,61 @@ func handlerProps(r *eng.Run, id string) {
 		})
 		results = append(results, res)
 	}
+	// E2 breadth: containers with up to N member nodes (more calls per traversal than the
+	// shortest-witness nodes of the BFS have), their whitespace variants and corruptions
+	docExecs, docTexts := 0, 0
+	{
+		N := r.Pick(4, 5)
+		ds := eng.GenDocs(N, []string{"null", "true", "-1.5e1", `"a` + "\\" + `n"`}, []string{`"k"`, `"` + U("006b") + "\\" + `t"`})
+		var texts []string
+		for n := 2; n <= N; n++ {
+			texts = append(texts, ds.BySize[n]...)
+		}
+		run := func(text string) {
+			w := eng.Exact([]byte(text))
+			kind := byte(0)
+			for _, b := range w {
+				if b == '[' || b == '{' {
+					kind = b
+					break
+				}
+				if !ref.IsWS(b) {
+					break
+				}
+			}
+			if kind == 0 {
+				kind = '['
+			}
+			docTexts++
+			n := 0
+			traverse(kind, w, nil, func(int, []byte) answer { n++; return answer{} })
+			switch id {
+			case "C07":
+				st := eng.ExploreChoices(func(c *eng.Chooser) {
+					bad, exp, got := checkTraversal(kind, w, nil, c.Choose)
+					if bad != "" {
+						r.Violation(eng.Replay{Engine: "handler", Entry: entryOf(kind), Sig: bad + "/doc/" + shortSig(w), InputB64: w, Choices: append([]int(nil), c.Trace...), Expected: exp, Got: got, Extra: map[string]interface{}{"kind": string(kind)}})
+					}
+				}, 6, 2)
+				docExecs += st.Executions
+				if st.MaxPoints > maxPts {
+					maxPts = st.MaxPoints
+				}
+			case "C09":
+				docExecs += checkErrorStop(r, kind, w, n, sentinel)
+			}
+		}
+		for _, t := range texts {
+			run(t)
+			run(eng.Style(t, 2))
+		}
+		for _, t := range ds.BySize[3] {
+			eng.Corruptions(t, corruptAlpha, func(s string) { run(s) })
+		}
+	}
+	execs += docExecs
+	r.Set("e2_document_texts", docTexts)
+	r.Set("e2_document_executions", docExecs)
 	e1Evidence(r, D, K, results...)
 	coverageReport(r, "handleArrayValues", "handleObjectValues")
 	r.Set("strategy_executions", execs)
